@@ -67,7 +67,9 @@ class Hist(object):
         cuts = []
         if cut_after is not None:
             fn = self.ex.resolve('PriceLevel::match_order').parse()
-            head = fn.loop_containing_call('match_against')
+            head = fn.loop_containing_call('match_against', self.ex.crate)
+            if head is None:
+                head = fn.loop_containing_call('::pop', self.ex.crate)
             if head is None:
                 raise Unsupported('match_order: no loop around match_against found')
             saved = (dict(self.ex.block_bounds), self.ex.capture_cuts)
